@@ -149,7 +149,7 @@ impl Lattice {
         self.indices[end_idx].push(idx);
         #[cfg(sudachi_verif)]
         crate::verif::emit(|| serde_json::json!({"ev": "lat_ins", "b": node.begin(), "e": node.end(), "lid": node.left_id(),
-            "rid": node.right_id(), "cost": node.cost(), "wid": node.word_id().as_raw(), "total": cost,
+            "rid": node.right_id(), "cost": node.cost(), "wid": node.word_id().as_raw(), "dic": node.word_id().dic(), "word": node.word_id().word(), "total": cost,
             "pe": idx.end(), "pi": idx.index()}));
         self.ends_full[end_idx].push(node);
         cost
